@@ -40,7 +40,16 @@ static int NM(encode)(struct enc *e)
   for (k = 0; k < nc; k++) { c.comp_info[k].h_samp_factor = e->hs[k]; c.comp_info[k].v_samp_factor = e->vs[k]; }
   c.arith_code = e->arith;
   c.restart_interval = e->rst;
-  if (e->mode == 1) jpeg_simple_progression(&c);
+  if (e->mode == 1 || (e->mode >= 3 && e->mode <= 5)) jpeg_simple_progression(&c);
+  else if (e->mode == 6 || e->mode == 7) {
+    /* incomplete progressive scan scripts (block smoothing stays active in the decoder):
+       6: DC only with final Al = 1;   7: DC (Al = 0) + AC 1..5 of component 0 with Al = 1 */
+    static jpeg_scan_info sj[2];
+    sj[0].comps_in_scan = nc; for (k = 0; k < nc; k++) sj[0].component_index[k] = k;
+    sj[0].Ss = 0; sj[0].Se = 0; sj[0].Ah = 0; sj[0].Al = e->mode == 6 ? 1 : 0;
+    sj[1].comps_in_scan = 1; sj[1].component_index[0] = 0; sj[1].Ss = 1; sj[1].Se = 5; sj[1].Ah = 0; sj[1].Al = 1;
+    c.scan_info = sj; c.num_scans = e->mode == 6 ? 1 : 2;
+  }
   else if (e->mode == 2 && nc > 1) {
     static jpeg_scan_info si[4];
     for (k = 0; k < nc; k++) { si[k].comps_in_scan = 1; si[k].component_index[0] = k; si[k].Ss = 0; si[k].Se = 63; si[k].Ah = 0; si[k].Al = 0; }
@@ -60,11 +69,47 @@ static int NM(encode)(struct enc *e)
   jpeg_finish_compress(&c);
   jpeg_destroy_compress(&c);
   free(row); free(base);
+  if (e->mode >= 3 && e->mode <= 5) {
+    /* truncated progressive file: keep the first (mode - 2) scans, cut before the next SOS (and the DHT
+       segments that precede it), append EOI */
+    unsigned long i = 2, cut = 0; int scans = 0, keep = e->mode - 2;
+    while (i + 4 <= len) {
+      unsigned long seg = i; int mk = out[i + 1];
+      if (out[i] != 0xFF || mk == 0xD9) break;
+      if (mk == 0xDA) {
+        if (scans == keep) { cut = seg; break; }
+        scans++;
+        i += 2 + ((out[i + 2] << 8) | out[i + 3]);
+        while (i + 1 < len && !(out[i] == 0xFF && out[i + 1] != 0 && !(out[i + 1] >= 0xD0 && out[i + 1] <= 0xD7))) i++;
+      } else if (scans == keep && mk == 0xC4 && scans > 0) { cut = seg; break; }
+      else i += 2 + ((out[i + 2] << 8) | out[i + 3]);
+    }
+    if (cut) { out[cut] = 0xFF; out[cut + 1] = 0xD9; len = cut + 2; }
+  }
   e->jpg = out; e->len = len; ok = 1;
   return ok ? 0 : -1;
 }
 
 /* configure a decompressor after read_header */
+/* start decompression; with s->bscan > 0 in buffered-image mode with an early output pass on scan bscan */
+static void NM(start)(struct jpeg_decompress_struct *d, struct dec *s)
+{
+  if (s->bscan > 0 && jpeg_has_multiple_scans(d)) {
+    d->buffered_image = TRUE;
+    jpeg_start_decompress(d);
+    while (d->input_scan_number <= s->bscan && !jpeg_input_complete(d)) {
+      int r = jpeg_consume_input(d);
+      if (r == JPEG_REACHED_EOI || r == JPEG_SUSPENDED) break;
+    }
+    jpeg_start_output(d, s->bscan);
+  } else jpeg_start_decompress(d);
+}
+static void NM(finish)(struct jpeg_decompress_struct *d, struct dec *s)
+{
+  if (d->buffered_image) jpeg_finish_output(d);
+  jpeg_finish_decompress(d);
+}
+
 static void NM(configure)(struct jpeg_decompress_struct *d, struct dec *s)
 {
   d->scale_num = s->M; d->scale_denom = 8;
@@ -93,7 +138,7 @@ static int NM(fulldecode)(struct enc *e, struct dec *s, struct full *f)
   jpeg_mem_src(&d, e->jpg, e->len);
   jpeg_read_header(&d, TRUE);
   NM(configure)(&d, s);
-  jpeg_start_decompress(&d);
+  NM(start)(&d, s);
   f->W = d.output_width; f->H = d.output_height; f->rowb = NM(rowbytes)(&d);
   f->pxb = f->rowb / (f->W ? f->W : 1);
   pix = (unsigned char *)malloc((size_t)f->rowb * f->H + 16);
@@ -101,7 +146,7 @@ static int NM(fulldecode)(struct enc *e, struct dec *s, struct full *f)
     SAMP *rp = (SAMP *)(pix + (size_t)f->rowb * d.output_scanline);
     JR(&d, &rp, 1);
   }
-  jpeg_finish_decompress(&d);
+  NM(finish)(&d, s);
   jpeg_destroy_decompress(&d);
   f->pix = pix;
   return 0;
@@ -120,7 +165,7 @@ static void NM(history)(struct enc *e, struct dec *s, struct full *f, long cx, l
 {
   struct jpeg_decompress_struct d; struct jpeg_error_mgr em;
   unsigned char *volatile buf = NULL; SAMP **volatile rows = NULL; int *volatile prov = NULL, *volatile provy = NULL;
-  volatile int nprov = 0; int *volatile clsv = NULL;
+  volatile int nprov = 0; int *volatile clsv = NULL; volatile int cmin = 1 << 30, cmax = -1;
   char *volatile o = outbuf; int i;
   d.err = jpeg_std_error(&em); em.error_exit = my_exit; em.emit_message = my_emit;
   if (setjmp(jb)) {
@@ -143,7 +188,7 @@ static void NM(history)(struct enc *e, struct dec *s, struct full *f, long cx, l
   jpeg_mem_src(&d, e->jpg, e->len);
   jpeg_read_header(&d, TRUE);
   NM(configure)(&d, s);
-  jpeg_start_decompress(&d);
+  NM(start)(&d, s);
   {
     my_master_ptr m = (my_master_ptr)d.master;
     int H = d.output_height, W = d.output_width;
@@ -151,6 +196,20 @@ static void NM(history)(struct enc *e, struct dec *s, struct full *f, long cx, l
     o += sprintf(o, "ok dims %d %d M=%d v=%d h=%d ctx=%d mrg=%d ms=%d", W, H, d.min_DCT_scaled_size, d.max_v_samp_factor,
                  d.max_h_samp_factor, d.upsample->need_context_rows ? 1 : 0, m->using_merged_upsample ? 1 : 0,
                  (d.inputctl->has_multiple_scans || d.buffered_image) ? 1 : 0);
+    { /* is interblock smoothing active?  (jdcoefct.c smoothing_ok(): progressive, DC of every component known,
+         some of the first AC coefficients of some component not known to full precision) */
+      int sm = 0, ci, k2;
+      if (d.progressive_mode && d.coef_bits != NULL && d.do_block_smoothing) {
+        sm = 1;
+        { int useful = 0;
+          for (ci = 0; ci < d.num_components; ci++) {
+            if (d.comp_info[ci].quant_table == NULL && d.quant_tbl_ptrs[d.comp_info[ci].quant_tbl_no] == NULL) sm = 0;
+            if (d.coef_bits[ci][0] < 0) sm = 0;
+            for (k2 = 1; k2 <= 9; k2++) if (d.coef_bits[ci][k2] != 0) useful = 1;
+          }
+          if (!useful) sm = 0; }
+      }
+      o += sprintf(o, " sm=%d", sm); }
     if (W != f->W || H != f->H) o += sprintf(o, " DIMS-DIFFER-FROM-FULL");
     if (cx >= 0) {
       JDIMENSION xo = (JDIMENSION)cx, wo = (JDIMENSION)cw;
@@ -196,6 +255,13 @@ static void NM(history)(struct enc *e, struct dec *s, struct full *f, long cx, l
               if (y >= H) found = -1;   /* a row past the bottom: nothing to compare with */
               else if (NM(roweq)(f, (unsigned char *)rows[j], y, (int)x0, (int)w0, ex0, ex1)) found = cls[y];
               else for (t = 0; t < H; t++) if (cls[t] == t && NM(roweq)(f, (unsigned char *)rows[j], t, (int)x0, (int)w0, ex0, ex1)) { found = t; break; }
+              if (y < H && found != cls[y]) {   /* which region columns differ from the full decode of row y */
+                int a0 = ex0 ? 1 : 0, b0 = (int)w0 - (ex1 ? 1 : 0), c;
+                for (c = a0; c < b0; c++)
+                  if (memcmp((unsigned char *)rows[j] + (size_t)c * f->pxb, f->pix + (size_t)f->rowb * y + (size_t)(x0 + c) * f->pxb, f->pxb)) {
+                    if (c < cmin) cmin = c; if (c > cmax) cmax = c;
+                  }
+              }
               if (nprov < maxn) { prov[nprov] = found; provy[nprov] = y; nprov++; }
             }
             got += k;
@@ -220,12 +286,12 @@ static void NM(history)(struct enc *e, struct dec *s, struct full *f, long cx, l
           if (bad < 4) o += sprintf(o, " y=%d:is=%d", provy[i], prov[i]);
           bad++;
         }
-        if (!bad) o += sprintf(o, " | px ok %d", nprov); else o += sprintf(o, " n=%d", bad);
+        if (!bad) o += sprintf(o, " | px ok %d", nprov); else o += sprintf(o, " n=%d cols=%d-%d", bad, cmax < 0 ? -1 : (int)cmin, (int)cmax);
         o += sprintf(o, " | dup");
         for (i = 0; i < H && o - outbuf < OUTMAX - 1024; i++) if (cls[i] != i) o += sprintf(o, " %d:%d", i, cls[i]);
       }
     }
-    if (d.output_scanline < d.output_height) jpeg_abort_decompress(&d); else jpeg_finish_decompress(&d);
+    if (d.output_scanline < d.output_height) jpeg_abort_decompress(&d); else NM(finish)(&d, s);
   }
   jpeg_destroy_decompress(&d);
   free(buf); free(rows); free(prov); free(provy); free(clsv);
